@@ -22,6 +22,11 @@ def handler : Handler := fun op args =>
   | "rounda" => run (do
       let thr ← nat; let a ← hex
       pure ("ok " ++ hexEncode ((roundAlpha thr (toNats a)).map UInt8.ofNat))) args
+  | "thr" => run (do
+      let bits ← nat
+      pure (match threshold bits with
+        | some t => s!"ok {t}"
+        | none => "err notfinite")) args
   | "blend" => run (do
       let s ← nat; let a ← nat; let b ← nat
       pure s!"ok {blendChannel s a b}") args
